@@ -31,9 +31,11 @@ def judge_unit_eq(fl):
             return ("returns non-boolean", repr(v))
         # types without reference unit: units are equal only if identical
         if isinstance(v, BoolV):
-            if same is None:
-                return ("constant result for unknown identity", repr(v))
-            return None if v.val == same else ("identity not respected", f"{v!r}, identical={same}")
+            equal_scale = mu_of(st, a).equals(mu_of(st, b))
+            if v.val:
+                return None if (same is True or equal_scale) else \
+                    ("units reported equal without equal definitions", f"identical={same}")
+            return None if same is not True else ("identical units compare unequal", "")
         return ("scale comparison in a type without reference unit",
                 f"{v!r}: the stored factors of units of a reference-less type are relative to unrelated "
                 f"base products and cannot be compared")
